@@ -92,9 +92,12 @@ def on_done_registered_before_submission(ctx):
            'the tracked coordinator must be untracked when (and only when) it is done')
 
 
-def _isolated(call):
-    """call sits in a try body whose handler catches Exception/BaseException and does not re-raise"""
+def _isolated(call, within=None):
+    """call sits in a try body whose handler catches Exception/BaseException and does not re-raise; the try lies inside
+    ``within`` (the loop over the callbacks: a try around the whole loop ends the loop at the first failing callback)"""
     for t, field in q.enclosing_trys(call):
+        if within is not None and not any(t is x for x in ast.walk(within)):
+            continue
         if field == 'body':
             for h in t.handlers:
                 if h.type is not None and norm(h.type) in ('Exception', 'BaseException') and not any(isinstance(n, ast.Raise) for n in ast.walk(h)):
@@ -110,7 +113,7 @@ def _invokes_isolated(ctx, f, loop, var, depth=0):
         if not isinstance(c, ast.Call):
             continue
         if isinstance(c.func, ast.Name) and c.func.id == var:
-            sites.append(_isolated(c))
+            sites.append(_isolated(c, loop if isinstance(loop, (ast.For, ast.While)) else None))
         elif any(isinstance(a, ast.Name) and a.id == var for a in c.args) and depth < 3:
             r = ctx.r.resolve(c, f, _count=False)
             if r.kind == 'package' and len(r.targets) == 1:
@@ -122,7 +125,7 @@ def _invokes_isolated(ctx, f, loop, var, depth=0):
     return len(sites) == 1 and sites[0]
 
 
-@rule('C08.c', ['C08', 'C05'], floor=3)
+@rule('C08.c', ['C08', 'C05', 'C07', 'C06'], floor=3)
 def run_once_isolated(ctx):
     """_run_done_callbacks / _run_failure_cleanups (fully expanded view: helpers inlined) loop
     over the whole list, invoke each callback inside try/except Exception without re-raise,
